@@ -2,7 +2,7 @@ import DswModel.Py.Value
 /-!
 # DswModel.Py.Wire — text form of `PV` values for the line protocol (`gen` operations)
 
-`i<int>` · `s<chars>` · `bT` / `bF` · `n` · `L[a,b,…]` · `T(a,b,…)` with atoms inside containers.
+`i<int>` · `s<chars>` · `bT` / `bF` · `n` · `f<num>/<den>` (a float, exactly) · `L[a,b,…]` · `T(a,b,…)` with atoms inside containers.
 Strings never contain a space, a comma or a closing bracket on this wire (the harness only sends
 such strings).
 -/
@@ -15,6 +15,12 @@ def parseAtom (s : String) : Option PV :=
   | ['b', 'T'] => some (.bool true)
   | ['b', 'F'] => some (.bool false)
   | ['n'] => some .none
+  | 'f' :: cs =>      -- a float as the exact fraction `f<num>/<den>` of its value
+    match (String.ofList cs).splitOn "/" with
+    | [n, d] => match n.toInt?, d.toNat? with
+                | some n, some d => if d > 0 then some (.rat n d) else Option.none
+                | _, _ => Option.none
+    | _ => Option.none
   | _ => Option.none
 
 def parseItems (body : String) : Option (List PV) :=
@@ -68,7 +74,9 @@ partial def showPV : PV → String
   | .list l => "L[" ++ ",".intercalate (l.map showPV) ++ "]"
   | .tup l => "T(" ++ ",".intercalate (l.map showPV) ++ ")"
   | .arr l => "A[" ++ ";".intercalate (l.map showPV) ++ "]"
-  | .rat n d => "Q" ++ toString n ++ "/" ++ toString d
+  | .rat n d =>      -- lowest terms, positive denominator (what `float.as_integer_ratio()` gives)
+    let g : Int := Int.gcd n d
+    if d > 0 ∧ g > 0 then "f" ++ toString (n / g) ++ "/" ++ toString (d / g) else "Q" ++ toString n ++ "/" ++ toString d
   | .set l => "S{" ++ ",".intercalate (l.map showPV) ++ "}"
   | .dict ks vs => "D{" ++ ";".intercalate ((ks.zip vs).map fun kv => showPV kv.1 ++ ":" ++ showPV kv.2) ++ "}"
 
